@@ -802,11 +802,12 @@ def check_padding(S, pr):
         y0 = canon(z3.simplify(z3.substitute(y, *zero)))
         # a dependence usually shows with an infinite or NaN padding lane (0 * inf): ask the solver for such a counterexample first (a counterexample is a counterexample; the proof below has no such restriction)
         hit = False
-        for pat in (0x7f800000, 0x7fc00000):
-            hint = [v == bv(pat, 32) for v in lanes if v.size() == 32]
+        others = [t for (c_, n_), terms in zip(pr.fa.ins, pr.ins) if c_ == 'float' for t in terms if t.get_id() not in lid]
+        for pat, pin in ((0x7f800000, True), (0x7f800000, False), (0x7fc00000, False)):
+            hint = [v == bv(pat, 32) for v in lanes if v.size() == 32] + ([t == bv(0x3f800000, 32) for t in others] if pin else [])       # pin: every other float input 1.0 (decided by constant folding)
             r, m, dt, used = S.query(pr.hyps + hint + [y != y0], 8, 'z3', pr.allvars)
             if r == 'sat':
-                S.prove(name, y == y0, pr.hyps + hint, timeout=20, solver='z3', kind='padding', functions=pr.fnlist, bounds=b2 + ' [counterexample search with the padding lanes fixed to %#x]' % pat, replay=replayer(oi, i), vars_=pr.allvars)
+                S.prove(name, y == y0, pr.hyps + hint, timeout=20, solver='z3', kind='padding', functions=pr.fnlist, bounds=b2 + ' [counterexample search with the padding lanes fixed to %#x%s]' % (pat, ', all other float inputs 1.0' if pin else ''), replay=replayer(oi, i), vars_=pr.allvars)
                 hit = True; break
         if hit: continue
         pr.decide(name, y == y0, pr.hyps, 'padding', b2, replayer(oi, i), S.cap(60, 180), True, 'z3', (y, y0), False, cong_budget=S.cap(40, 120))
